@@ -68,6 +68,16 @@ request to service j never joins a call in flight on service i (theorems service
 service_steps_are_independent); the monitors treat (service, key) as the key. `arrive … eclone=1`: the caller looks at a
 clone of what it received (`CoalesceError::clone`).
 
+`arrive … rdy=<script>`: the answers of the wrapped service OF THE HANDLE THIS CALLER IS ABOUT TO CALL to that handle's
+successive `poll_ready` calls ('p' pending, 'r' ready, 'e' error), as in gen/bulkhead.py. A handle that does not become
+ready is not called: the caller gets the readiness error (`err:inner9:0`) or `notready`, and NOTHING else happens — the
+in-flight table is shared by all clones of the service, a handle's copy of the wrapped service is not: calls led through
+other handles stay registered, their waiters keep waiting, the next request for the key joins them (model: the line is
+answered without any operation; theorems readiness_failure_changes_nothing, readiness_failure_leaves_table,
+refused_arrivals_invisible; seeded/C11-w6m1). Half of the cases generate it (8 or 20% of the arrivals fail, as many are
+pending first and then ready), preferably while a leader has waiters in flight, followed by a poll of a waiter and a
+fresh arrival for the key.
+
 Meta lines of the harness used by the monitors (never compared with the model):
   #arrive c key   adapter, just before `Service::call` (a leader's `inner_call` follows at once); `key@k` on service k > 0
   #fp c t         first poll of caller c
@@ -185,6 +195,19 @@ def gen_herd(rng, tier):
 # conforming implementation costs one 3 ms time-out per round. Serialised with the herd runs (same flock).
 FINISH_P = {"quick": 0.015, "thorough": 0.004}
 VIAS = [" via=readyclone", " via=swap", " via=template", " via=clone"]
+RDY_FAIL = ["e", "e", "e", "pe", "ppe", "p", "pp"]        # readiness scripts after which the handle is not called
+RDY_OK = ["r", "pr", "ppr", "re"]                         # … after which it is
+
+
+def rdy_outcome(script):
+    """what a readiness script comes to for the caller: None (ready: the call is made) / 'err:inner9:0' / 'notready'
+    (the caller polls until an answer other than pending, or until the script ends)"""
+    if script is None:
+        return None
+    rest = script.lstrip("p")
+    if not rest:
+        return "notready"
+    return "err:inner9:0" if rest[0] == "e" else None
 
 
 def gen_finish(rng, tier):
@@ -230,6 +253,18 @@ def gen(rng, tier):
     # dropped afterwards (the old cases) / the future is owned by the polling frame and goes DURING the unwinding
     r = rng.random()
     p_unwind = 0.0 if r < 0.35 else 1.0 if r < 0.55 else rng.choice([0.3, 0.5, 0.8])
+
+    # readiness of the handle a caller is about to call: always ready (half of the cases) / fails or stays pending for
+    # 8 or 20% of the arrivals, pending first and then ready for as many
+    p_rdy = rng.choice([0, 0, 0, 0.08, 0.2, 0.2])
+
+    def rdy():
+        """(words, refused): the readiness script of one arrival"""
+        if p_rdy and rng.random() < p_rdy:
+            return " rdy=" + rng.choice(RDY_FAIL), True
+        if p_rdy and rng.random() < p_rdy:
+            return " rdy=" + rng.choice(RDY_OK), False
+        return "", False
 
     def svc_of():
         if nsvc == 1:
@@ -303,10 +338,34 @@ def gen(rng, tier):
             cp = rng.random() < 0.12        # the inner service's call() itself panics (if this request leads)
             keep = rng.random() < 0.25      # the caller holds on to the finished future and drops it later (`release`)
             clp = rng.random() < 0.08 and CLONE_PANIC   # the value of its inner call cannot be cloned (drawn either way)
-            ops.append("arrive %d %s inner=%d:%s%s%s%s%s%s" % (c, kw(key), lat, out, " callpanic=1" if cp else "", " clonepanic=1" if clp else "", " keep=1" if keep else "", via(), how()))
+            # a handle of somebody else's fails its readiness check just when a leader has waiters in flight
+            rw, refused = rdy()
+            if not refused and p_rdy and sim.waiting() and rng.random() < 0.25:
+                rw, refused = " rdy=" + rng.choice(RDY_FAIL), True
+                if rng.random() < 0.7:
+                    wl = [w for w in sim.live if w in sim.join and sim.join[w] not in sim.over]
+                    key = sim.info[sim.join[rng.choice(wl)]][0]      # … for the very key in flight
+            ops.append("arrive %d %s inner=%d:%s%s%s%s%s%s%s" % (c, kw(key), lat, out, " callpanic=1" if cp else "", " clonepanic=1" if clp else "", " keep=1" if keep else "", via(), rw, how()))
             arrived.append(c)
             if gone[0]:
                 continue                    # no handle to call through: refused (`noop`), and so is any poll/drop of it
+            if refused:
+                # answered with the readiness error; nothing else may have happened: look at a waiter, ask for the key again
+                wl = [w for w in sim.live if w in sim.join and sim.join[w] not in sim.over]
+                if wl and rng.random() < 0.6:
+                    w = rng.choice(wl)
+                    ops.append("poll %d" % w)
+                    sim.poll(w, now)
+                if nxt <= ncall and rng.random() < 0.5:
+                    c2 = nxt
+                    nxt += 1
+                    ops.append("arrive %d %s inner=%d:%s%s%s" % (c2, kw(key), rng.choice([0, 0, 5, 10]), pick_outcome(rng, w_ok=5, w_err=2, w_panic=1, w_never=1), via(), how()))
+                    arrived.append(c2)
+                    kv2 = kvs(ops[-1])
+                    l2, _, o2 = kv2["inner"].partition(":")
+                    sim.arrive(c2, key, now, int(l2), o2)
+                    marks.append(now + int(l2))
+                continue
             if keep:
                 kept.append(c)
             if cp and key not in sim.lead:
@@ -409,7 +468,9 @@ def gen(rng, tier):
             for k in range(1, nkeys + 1):
                 if rng.random() < 0.25:
                     ops.append("arrive %d %s inner=0:ok callpanic=1%s" % (base + 50 + 10 * sv + k, kw((sv, k)), via()))
-                ops.append("arrive %d %s inner=0:ok%s%s" % (base + 10 * sv + k, kw((sv, k)), via(), how()))
+                if p_rdy and rng.random() < p_rdy:
+                    ops.append("arrive %d %s inner=0:ok%s rdy=%s" % (base + 70 + 10 * sv + k, kw((sv, k)), via(), rng.choice(RDY_FAIL)))
+                ops.append("arrive %d %s inner=0:ok%s%s%s" % (base + 10 * sv + k, kw((sv, k)), via(), " rdy=" + rng.choice(RDY_OK) if p_rdy and rng.random() < p_rdy else "", how()))
                 fresh.append(base + 10 * sv + k)
         for c in fresh:
             ops.append("poll %d" % c)
@@ -475,6 +536,20 @@ def _callpanic(case):
     return cp
 
 
+def _refused(case):
+    """callers whose handle does not become ready (`rdy=<script>`): caller -> the answer they must get"""
+    ref = {}
+    seen = set()
+    for o in case["ops"]:
+        w = o.split()
+        if len(w) >= 2 and w[0] == "arrive" and w[1] not in seen:
+            seen.add(w[1])
+            x = rdy_outcome(kvs(o).get("rdy"))
+            if x is not None:
+                ref[w[1]] = x
+    return ref
+
+
 def _clonepanic(case):
     """callers whose inner call (if they lead one) yields a value that panics when the leader clones it"""
     cl = set()
@@ -514,11 +589,15 @@ def _expected(fate):
 def mon_inflight(case, lines, meta):
     """at most one inner call in flight per key, in every prefix of the implementation log"""
     keys = _keys(case, meta)
+    refused = _refused(case)
     inflight = {}
+    unready = []
     for i, l in enumerate(lines):
         t, w = tparse(l)
         if not w:
             continue
+        if w[0] == "result" and w[1] in refused and w[2] == refused[w[1]]:
+            unready.append(w[1])
         if w[0] == "inner_call":
             key = keys.get(w[1])
             if key is None:
@@ -526,7 +605,7 @@ def mon_inflight(case, lines, meta):
             s = inflight.setdefault(key, set())
             s.add(w[2])
             if len(s) > 1:
-                return "line %d: %d inner calls in flight for key %s (serials %s)" % (i, len(s), key, sorted(s))
+                return "line %d: %d inner calls in flight for key %s (serials %s)%s" % (i, len(s), key, sorted(s), _after_unready(unready))
         elif w[0] in ("inner_done", "inner_drop"):
             key = keys.get(w[1])
             inflight.get(key, set()).discard(w[2])
@@ -580,6 +659,13 @@ def mon_finish(case, lines, meta):
     return None
 
 
+def _after_unready(unready):
+    if not unready:
+        return ""
+    return (" (after the readiness failure of the handle of caller %s — another handle: a readiness failure concerns the handle it "
+            "happened on, the calls in flight were led through other handles)" % unready[-1])
+
+
 def mon_share(case, lines, meta):
     """roles and results: a request arriving while a call for its key is in flight makes no inner call and
     gets exactly that call's result (same serial; `err:leader_cancelled` iff that leader was dropped or
@@ -587,6 +673,8 @@ def mon_share(case, lines, meta):
     keys = _keys(case, meta)
     cpanic = _callpanic(case)
     clpanic = _clonepanic(case)
+    refused = _refused(case)
+    unready = []      # callers answered with a readiness failure so far
     ev = _timeline(lines, meta)
     cur = {}          # key -> (leader caller, serial) in flight
     joined = {}       # waiter -> leader
@@ -598,13 +686,16 @@ def mon_share(case, lines, meta):
             continue
         if kind == "meta" and w[0] == "#arrive":
             c, key = w[1], w[2]
+            if c in refused:
+                return "caller %s reached Service::call although the handle it was about to call never became ready (readiness: %s)" % (c, refused[c])
             if keys.get(c) != key:
                 return "caller %s: key extractor saw key %s, the request carries %s" % (c, key, keys.get(c))
             nx = ev[i + 1] if i + 1 < len(ev) else None
             leads = bool(nx and nx[0] == "line" and nx[1][:2] == ["inner_call", c])
             if key in cur:
                 if leads:
-                    return "caller %s arrived while call %s of caller %s was in flight for key %s, but made an inner call of its own" % (c, cur[key][1], cur[key][0], key)
+                    return ("caller %s arrived while call %s of caller %s was in flight for key %s, but made an inner call of its own%s"
+                            % (c, cur[key][1], cur[key][0], key, _after_unready(unready)))
                 joined[c] = cur[key][0]
             elif not leads:
                 if c in cpanic and nx and nx[0] == "line" and nx[1][:3] == ["result", c, "panic"]:
@@ -643,10 +734,15 @@ def mon_share(case, lines, meta):
             fate[c] = ("cancelled",)
         elif kind == "line" and w[0] == "result":
             c, x = w[1], w[2]
+            if c in refused and c not in joined and c not in own:
+                if x != refused[c]:
+                    return "caller %s, whose handle did not become ready, got %s, expected %s" % (c, x, refused[c])
+                unready.append(c)
+                continue
             if c in joined:
                 ldr = joined[c]
                 if ldr not in fate:
-                    return "waiter %s resolved (%s) while its leader %s was still in flight" % (c, x, ldr)
+                    return "waiter %s resolved (%s) while its leader %s was still in flight%s" % (c, x, ldr, _after_unready(unready))
                 if x != _expected(fate[ldr]):
                     return "waiter %s of leader %s (key %s) got %s, expected %s" % (c, ldr, keys.get(c), x, _expected(fate[ldr]))
             else:
@@ -796,6 +892,10 @@ def transitions(case, lines, meta=None):
             unwinding_drops.add(w[1])
     flying = {}           # (service, key) -> leader
     done_ok = set()
+    refused = _refused(case)
+    for c, kv in first.items():
+        if "rdy" in kv and c not in refused and "p" in kv["rdy"].split("r")[0]:
+            tags.append("ready-after-pending")
     for l in lines:
         _, w = tparse(l)
         if not w:
@@ -818,6 +918,10 @@ def transitions(case, lines, meta=None):
         elif w[0] == "inner_drop":
             flying.pop(keys.get(w[1]), None)
             tags.append("leader-dropped-unwinding" if w[1] in unwinding_drops else "leader-dropped")
+        elif w[0] == "result" and w[1] in refused and w[1] not in leaders and w[2] == refused[w[1]]:
+            tags.append("refused-notready" if w[2] == "notready" else "refused-readiness-error")
+            if flying:
+                tags.append("readiness-failure-while-inflight")     # calls led through other handles are in flight
         elif w[0] == "result":
             who = "leader" if w[1] in leaders else "waiter"
             x = w[2]
@@ -886,11 +990,12 @@ SPECS = {
                             "via-template", "via-swap", "via-readyclone", "sole-handle-overlap",
                             "leader-panic-unwinding", "leader-panic-caught", "leader-dropped-unwinding", "error-cloned",
                             "ctor-new", "ctor-config", "ctor-confignew", "ctor-service",
-                            "service-even-from-layer", "service-odd-from-layer-clone", "other-service-leads-same-key"]
+                            "service-even-from-layer", "service-odd-from-layer-clone", "other-service-leads-same-key",
+                            "refused-readiness-error", "refused-notready", "readiness-failure-while-inflight", "ready-after-pending"]
                            + (["leader-clone-panic"] if CLONE_PANIC else []),
         "canon": canon,
-        "model_modules": ["TR.Model.Coalesce", "TR.Lemmas.Coalesce", "TR.Lemmas.CoalesceHandle", "TR.Lemmas.CoalesceHerd", "TR.Lemmas.CoalesceCaller", "TR.Lemmas.CoalesceServices", "TR.Lemmas.CoalesceUnwind", "TR.Lemmas.CoalesceOnce", "TR.Mutants.CoalesceCallPanicWedges"],
-        "lean_files": ["TR.Model.Coalesce", "TR.Lemmas.Coalesce", "TR.Lemmas.CoalesceHandle", "TR.Lemmas.CoalesceHerd", "TR.Lemmas.CoalesceCaller", "TR.Lemmas.CoalesceServices", "TR.Lemmas.CoalesceUnwind", "TR.Lemmas.CoalesceOnce"],
+        "model_modules": ["TR.Model.Coalesce", "TR.Lemmas.Coalesce", "TR.Lemmas.CoalesceHandle", "TR.Lemmas.CoalesceHerd", "TR.Lemmas.CoalesceCaller", "TR.Lemmas.CoalesceServices", "TR.Lemmas.CoalesceUnwind", "TR.Lemmas.CoalesceOnce", "TR.Lemmas.CoalesceReady", "TR.Mutants.CoalesceCallPanicWedges"],
+        "lean_files": ["TR.Model.Coalesce", "TR.Lemmas.Coalesce", "TR.Lemmas.CoalesceHandle", "TR.Lemmas.CoalesceHerd", "TR.Lemmas.CoalesceCaller", "TR.Lemmas.CoalesceServices", "TR.Lemmas.CoalesceUnwind", "TR.Lemmas.CoalesceOnce", "TR.Lemmas.CoalesceReady"],
         "sizes": (600, 30000),
         "rule": "seeded random op sequences (arrive key=../poll/drop/adv/settle) over 1..3 keys and 1..12 requests, 70% of them on one key, "
                 "inner latencies 0..40 ms with ok/err/panic/never, 12% of the arrivals with an inner call() that itself panics, advances biased to completion-1/completion/completion+1, leader and waiter "
@@ -911,7 +1016,9 @@ SPECS = {
                 "CoalesceConfig::new or not at all (`ctor=`, 55% non-default); 40% of the cases use 2..4 services built lazily from the one "
                 "layer value or from clones of it (`svc=`), same keys on all of them; 65% of the cases have call futures owned by the "
                 "polling frame (`unwind=1` on 30..100% of their arrivals: a panicking poll destroys the future during the unwinding) and "
-                "drops caused by a panicking owner (`drop c unwind=1`); 25% of the callers look at a clone of their result (`eclone=1`); "
+                "drops caused by a panicking owner (`drop c unwind=1`); in half of the cases 8 or 20% of the arrivals go through a handle whose "
+                "inner readiness fails or stays pending (`rdy=<script>`, per handle; more often while a leader has waiters in flight, then a "
+                "waiter is polled and the key requested again) and as many through a handle that is pending first; 25% of the callers look at a clone of their result (`eclone=1`); "
                 "with VERIF_C11_CLONE_PANIC=1 8% of the requests yield a value whose Clone panics (open finding, off by default); "
                 "distinct = distinct implementation event log; non-trivial = some waiter resolved, or a leader was dropped or panicked",
         "trusted": ["tokio broadcast / parking_lot Mutex / unwinding semantics as transcribed in TR.Model.Coalesce (sampled by the correspondence check)",
@@ -935,7 +1042,8 @@ SPECS = {
                       "dropOps_spec, simultaneous_arrivals_one_leader, no_cancellation_without_cause, arrival_during_completion_shares_or_leads, "
                       "caller_mode_irrelevant, leader_panic_frees_key_at_once, leader_clone_panic_frees_key_at_once, "
                       "panicked_leader_waiter_fails_at_next_poll, leader_completion_publishes, waiter_receives_leader_value, "
-                      "caller_behaviour_irrelevant, unwinding_drop_is_a_drop, at_most_one_result, result_unique, "
+                      "caller_behaviour_irrelevant, unwinding_drop_is_a_drop, readiness_failure_changes_nothing, readiness_failure_leaves_table, "
+                      "refused_arrivals_invisible, at_most_one_result, result_unique, "
                       "no_answer_while_pending_or_dropped, delivered_cancelled_exclusive, service_steps_are_independent, "
                       "services_do_not_share, arrive_line_key}: for every operation sequence over any key space (all arrival, "
                       "completion, cancellation instants, all poll orders, ok/err/panic/never, panics inside inner.call() as well as in its "
